@@ -296,7 +296,7 @@ pub fn run(ctx: &Ctx) -> Report {
         }
     }
     // generated trailing histories
-    let extra = ctx.share(ctx.scale(3_000, 60_000));
+    let extra = ctx.share(ctx.scale(40_000, 600_000));
     for _ in 0..extra {
         let c = Case {
             path: rng.below(9) as u8,
